@@ -19,6 +19,11 @@ REPO = "/repo"
 
 # property -> list of (name, file relative to /repo, old, new)
 MUTANTS = {
+    "C11": [
+        ("advection-skip-last-cell", "src/phreeqcpp/advection.cpp", "\t\tfor (i = count_ad_cells; i > 0; i--)\n\t\t{\n\t\t\t//solution_duplicate(i - 1, i);", "\t\tfor (i = count_ad_cells; i > 1; i--)\n\t\t{\n\t\t\t//solution_duplicate(i - 1, i);"),
+        ("mix-asymmetric*", "src/phreeqcpp/transport.cpp", "temp_mix.Add(i + 1, m1[i]);", "temp_mix.Add(i + 1, m1[i] * 1.0001);"),
+        ("mix-self-fraction*", "src/phreeqcpp/transport.cpp", "temp_mix.Add(i, 1.0 - m[i] - m1[i]);", "temp_mix.Add(i, 1.0 - m[i] - m1[i] + (i == 3 ? 1e-7 : 0.0));"),
+    ],
     "C16": [
         ("davies-0.3", "src/phreeqcpp/model.cpp", "(muhalf / (1.0 + muhalf) - 0.3 * mu);", "(muhalf / (1.0 + muhalf) - 0.24 * mu);"),
         ("wateq-drop-b", "src/phreeqcpp/model.cpp", "\t\t\ts_x[i]->lg = -a * muhalf * s_x[i]->z * s_x[i]->z /\n\t\t\t\t(1.0 + s_x[i]->dha * b * muhalf) + s_x[i]->dhb * mu;", "\t\t\ts_x[i]->lg = -a * muhalf * s_x[i]->z * s_x[i]->z /\n\t\t\t\t(1.0 + s_x[i]->dha * b * muhalf) + s_x[i]->dhb * mu * (s_x[i]->z > 1.5 ? 0.999 : 1.0);"),
